@@ -149,6 +149,10 @@ func (tt *TermTable) setRange(t *Term) {
 		}
 	case OpZext:
 		t.Lo, t.Hi = t.A.Lo, t.A.Hi
+	case OpNeg:
+		if t.A.Lo >= 1 {
+			t.Lo, t.Hi = (m-t.A.Hi)+1, (m-t.A.Lo)+1
+		}
 	case OpExtract:
 		if t.K&0xff == 0 && t.A.Hi <= m {
 			t.Lo, t.Hi = t.A.Lo, t.A.Hi
@@ -715,6 +719,44 @@ func (tt *TermTable) Bin(op Op, a, b *Term) *Term {
 			return tt.Const(w, v)
 		}
 	}
+	{
+		// signed operations on provably non-negative operands are the unsigned ones
+		sm := mask(w) >> 1
+		if a.Hi <= sm && b.Hi <= sm {
+			switch op {
+			case OpSdiv:
+				op = OpUdiv
+			case OpSrem:
+				op = OpUrem
+			}
+		}
+		if op == OpAshr {
+			if a.Hi <= sm {
+				op = OpLshr
+			} else if a.Lo > sm && b.Op == OpConst && b.K >= uint64(w)-1 {
+				return tt.Const(w, mask(w)) // negative >> (w-1)
+			}
+		}
+		if op == OpLshr && b.Op == OpConst && b.K < 64 && a.Hi>>b.K == 0 {
+			return tt.Const(w, 0)
+		}
+		if op == OpBxor && b.Op == OpConst && b.K == mask(w) {
+			return tt.Bnot(a)
+		}
+		if op == OpBxor && a.Op == OpConst && a.K == mask(w) {
+			return tt.Bnot(b)
+		}
+		if op == OpBand && b.Op == OpConst && b.K&(b.K+1) == 0 && a.Hi <= b.K {
+			return a // masking bits that are already clear
+		}
+		if op == OpBand && b.Op == OpConst && b.K != 0 && b.K&(b.K+1) == 0 && b.K != mask(w) {
+			// x & (2^k - 1) with determined low bits
+			k := uint8(bits.Len64(b.K))
+			if v, ok := lowConst(a, k); ok {
+				return tt.Const(w, v)
+			}
+		}
+	}
 	if b.Op == OpConst && b.K != 0 {
 		sm := mask(w) >> 1
 		switch op {
@@ -807,6 +849,10 @@ func (tt *TermTable) Bnot(a *Term) *Term {
 	if a.Op == OpBnot {
 		return a.A
 	}
+	if a.Op == OpNeg {
+		// ^(-x) = x - 1
+		return tt.Bin(OpAdd, a.A, tt.Const(a.W, mask(a.W)))
+	}
 	return tt.mk(OpBnot, a.W, a, nil, nil, 0, "")
 }
 
@@ -817,7 +863,52 @@ func (tt *TermTable) Neg(a *Term) *Term {
 	if a.Op == OpNeg {
 		return a.A
 	}
+	if a.Op == OpBnot {
+		// -(^x) = x + 1
+		return tt.Bin(OpAdd, a.A, tt.Const(a.W, 1))
+	}
 	return tt.mk(OpNeg, a.W, a, nil, nil, 0, "")
+}
+
+// lowConst reports the value of the low k bits of t when they are determined
+// (e.g. (q*1024 + 5) mod 2^10 = 5): arithmetic modulo 2^k needs no interval.
+func lowConst(t *Term, k uint8) (uint64, bool) {
+	m := mask(k)
+	switch t.Op {
+	case OpConst:
+		return t.K & m, true
+	case OpAdd, OpSub:
+		x, ok1 := lowConst(t.A, k)
+		y, ok2 := lowConst(t.B, k)
+		if ok1 && ok2 {
+			if t.Op == OpAdd {
+				return (x + y) & m, true
+			}
+			return (x - y) & m, true
+		}
+	case OpMul:
+		if t.B.Op == OpConst && t.B.K&m == 0 {
+			return 0, true
+		}
+		x, ok1 := lowConst(t.A, k)
+		y, ok2 := lowConst(t.B, k)
+		if ok1 && ok2 {
+			return (x * y) & m, true
+		}
+	case OpShl:
+		if t.B.Op == OpConst && t.B.K >= uint64(k) {
+			return 0, true
+		}
+	case OpZext, OpSext:
+		if k <= t.A.W {
+			return lowConst(t.A, k)
+		}
+	case OpNeg:
+		if x, ok := lowConst(t.A, k); ok {
+			return (-x) & m, true
+		}
+	}
+	return 0, false
 }
 
 func (tt *TermTable) Extract(a *Term, hi, lo uint8) *Term {
@@ -896,6 +987,13 @@ func (tt *TermTable) Zext(a *Term, w uint8) *Term {
 		return tt.Const(w, a.K)
 	}
 	if a.Op == OpZext {
+		return tt.Zext(a.A, w)
+	}
+	// zext(x[k-1:0]) where x already fits k bits: a truncation that loses nothing
+	if a.Op == OpExtract && a.K&0xff == 0 && a.A.Hi <= mask(a.W) {
+		if w <= a.A.W {
+			return tt.Extract(a.A, w-1, 0)
+		}
 		return tt.Zext(a.A, w)
 	}
 	// push the extension through additions / multiplications that provably do not
